@@ -81,6 +81,10 @@ BigBound == /\ Len(tree.items) \in 0..2
             /\ (Len(tree.items) >= 1 => Len(tree.items[1].v.items) >= 249)
             /\ (Len(tree.items) = 2 => Len(tree.items[2].v.items) <= 1)
 
+\* state constraint of the container configurations: a string is not grown beyond a few characters (its capacity can be
+\* tens of bytes with a wide length type; longer strings add states, not behaviour)
+StrBound == T.k = "str" => Len(tree.bytes) <= 4
+
 \* ---- invariants of every reachable state --------------------------------------------------------
 InvRoundTrip == RoundTrip(tree, T, L)
 InvSize      == SizeSufficient(tree, T, L)
